@@ -268,6 +268,14 @@ func deleteConsensusSigns(native *native.NativeService, key common.Uint256) {
 	native.GetCacheDB().Delete(utils.ConcatKey(contract, []byte(CONSENSUS_SIGNS), key.ToArray()))
 }
 
+// ClearConsensusSigns drops the approvals collected so far for (method, input). It is called when the request they
+// were given for is withdrawn or replaced, so that they cannot count towards a different request.
+func ClearConsensusSigns(native *native.NativeService, method string, input []byte) {
+	message := append([]byte(method), input...)
+	key := sha256.Sum256(message)
+	deleteConsensusSigns(native, key)
+}
+
 func CheckConsensusSigns(native *native.NativeService, method string, input []byte, address common.Address) (bool, error) {
 	message := append([]byte(method), input...)
 	key := sha256.Sum256(message)
